@@ -49,3 +49,37 @@ Theorem C16_template_call_is_inlining : forall ts t hd sp sp1 sp2 args pre post 
   /\ expand (S f) ts (pre ++ body ++ post) = Ok (inr (pre ++ body ++ post)).
 Proof. exact template_call_is_inlining. Qed.
 Print Assumptions C16_template_call_is_inlining.
+
+(* the conditional forms (evaluate_conditionals): a conditional whose test holds is replaced by exactly its content, one whose
+   test fails by nothing; in a vector the result is spliced between untouched neighbours *)
+From KV Require Import Proofs.C16Cond.
+Theorem C16_if_equal_is_its_content_or_nothing : forall a b sh sa sb content sp,
+  ec_expr (SList (Atom A_if_equal sh :: Atom a sa :: Atom b sb :: content) sp) =
+    inr (if bytes_eqb a b then content else [], true).
+Proof. exact if_equal_replacement. Qed.
+Print Assumptions C16_if_equal_is_its_content_or_nothing.
+
+Theorem C16_if_not_equal_is_its_content_or_nothing : forall a b sh sa sb content sp,
+  ec_expr (SList (Atom A_if_not_equal sh :: Atom a sa :: Atom b sb :: content) sp) =
+    inr (if bytes_eqb a b then [] else content, true).
+Proof. exact if_not_equal_replacement. Qed.
+Print Assumptions C16_if_not_equal_is_its_content_or_nothing.
+
+Theorem C16_if_in_list_is_its_content_or_nothing : forall a sh sa lst sl content sp,
+  ec_expr (SList (Atom A_if_in_list sh :: Atom a sa :: SList lst sl :: content) sp) =
+    inr (if atoms_contain a lst then content else [], true).
+Proof. exact if_in_list_replacement. Qed.
+Print Assumptions C16_if_in_list_is_its_content_or_nothing.
+
+Theorem C16_if_not_in_list_is_its_content_or_nothing : forall a sh sa lst sl content sp,
+  ec_expr (SList (Atom A_if_not_in_list sh :: Atom a sa :: SList lst sl :: content) sp) =
+    inr (if atoms_contain a lst then [] else content, true).
+Proof. exact if_not_in_list_replacement. Qed.
+Print Assumptions C16_if_not_in_list_is_its_content_or_nothing.
+
+Theorem C16_conditional_is_spliced_in_place : forall pre post a b sh sa sb content sp,
+  Forall (fun e => exists t s, e = Atom t s) pre -> Forall (fun e => exists t s, e = Atom t s) post ->
+  eval_conds (pre ++ SList (Atom A_if_equal sh :: Atom a sa :: Atom b sb :: content) sp :: post) =
+    inr (pre ++ (if bytes_eqb a b then content else []) ++ post, true).
+Proof. exact if_equal_spliced. Qed.
+Print Assumptions C16_conditional_is_spliced_in_place.
